@@ -7,7 +7,7 @@
    TaskRunner as pseudo-threads).  "In ...exec n scripts sched" = at every step of every
    interleaving.  n = 0 is allowed (nothing is ever let in), so n >= 1 is not needed. *)
 From Coq Require Import List ZArith Bool Arith.
-From GZ Require Import Lib.Sched C05.Model C05.Proofs.
+From GZ Require Import Lib.Sched C05.Model C05.Proofs C05.Proofs2.
 Import ListNotations.
 
 (* ---- Limit / TimeoutLimit / MaxConnsHandler ---- *)
@@ -204,6 +204,122 @@ Theorem blocked_pool : forall s t th,
 Proof. exact pool_blocked_l. Qed.
 Print Assumptions blocked_pool.
 
+(* ---- round 3: admission below the cap, capacity restored, Wait, WorkerGroup, MaxConns ---- *)
+
+(* let in below the cap (dual of refused_or_blocked; together they say that the free
+   capacity is exactly n - outstanding permits: "the full capacity is available again" means
+   that n further requests WILL be let in).  Any state. *)
+Theorem let_in_below_cap_limit : forall s t th o,
+  nth_error (lthreads s) t = Some th -> t < length (lthreads s) -> lcur th = Some o -> lc s < lcap s ->
+  match lpcof th, o with
+  | LIdle, LTry => lstep s t = Some (lacquire s t (ldone th (S (lheld th)) 1))
+  | LIdle, LTBorrow _ => lstep s t = Some (lacquire s t (ldone th (S (lheld th)) 1))
+  | LIdle, LReq _ => lstep s t = Some (lacquire s t (lgo th LInBody (S (lheld th))))
+  | LBorrowing, _ => lstep s t = Some (lacquire s t (ldone th (S (lheld th)) 1))
+  | LTWoken, _ => lstep s t = Some (lacquire s t (ldone th (S (lheld th)) 1))
+  | _, _ => True
+  end.
+Proof. exact lim_let_in_l. Qed.
+Print Assumptions let_in_below_cap_limit.
+
+Theorem let_in_below_cap_taskrunner : forall s t th o,
+  nth_error (rthreads s) t = Some th -> t < length (rthreads s) -> rcur th = Some o -> rc s < rcap s ->
+  let spawn := rtasks s ++ [mkTask TSpawned (rpanics o)] in
+  match rpcof th, o with
+  | RIdle, RSchedNow _ =>
+    rstep s t = Some (mkRS (rcap s) (S (rc s)) (S (rwg s)) spawn (upd_nth (rthreads s) t (rdone th 1)))
+  | RScheduling, _ =>
+    rstep s t = Some (mkRS (rcap s) (S (rc s)) (rwg s) spawn (upd_nth (rthreads s) t (rdone th 1)))
+  | _, _ => True
+  end.
+Proof. exact tr_let_in_l. Qed.
+Print Assumptions let_in_below_cap_taskrunner.
+
+Theorem let_in_below_limit_pool : forall s t th,
+  nth_error (pthreads s) t = Some th -> pcur th = Some PGet -> ppcof th = PEnter -> plocked s = false ->
+  pidle s = [] -> pcreated s < plimit s ->
+  exists s', pstep s t = Some s' /\ pcreated s' = S (pcreated s) /\ plocked s' = true /\
+             nth_error (pthreads s') t =
+             Some (mkPT (PCreating (pnext s)) (pscript th) (popi th) (pnext s :: pheld th) (pres th)).
+Proof. exact pool_let_in_l. Qed.
+Print Assumptions let_in_below_limit_pool.
+
+(* capacity_restored, history level, NO dynamic hypothesis.  [bal 0 sc = Some 0]: the script
+   is statically balanced - walking through it with a counter (Borrow +1, Return needs a
+   positive counter and -1, an HTTP request through MaxConnsHandler - whose handler returns OR
+   PANICS, [LReq p] for any p - leaves it unchanged) never underflows and ends at 0.  For every
+   capacity, every number of such threads, every placement of panicking handlers and every
+   schedule: no Return is ever rogue, the outstanding permits are exactly the permits held
+   (<= n), and once all scripts have run to their end the limit is empty again. *)
+Theorem capacity_restored_limit : forall n scripts sched,
+  Forall (fun sc => bal 0 sc = Some 0) scripts ->
+  let s := lexec n scripts sched in
+  lrogue s = false /\ lholders s = lc s /\ lc s <= n /\
+  ((forall th, In th (lthreads s) -> lcur th = None) -> lc s = 0).
+Proof. exact lim_capacity_restored_l. Qed.
+Print Assumptions capacity_restored_limit.
+
+(* MaxConnsHandler: the `if err := latch.Return(); err != nil` branch of the deferred function
+   is dead code - whenever a request is inside the body the limit is not empty *)
+Theorem maxconns_return_never_fails : forall n scripts sched t th,
+  Forall (Forall is_req) scripts ->
+  let s := lexec n scripts sched in
+  nth_error (lthreads s) t = Some th -> lpcof th = LInBody -> 0 < lc s.
+Proof. exact maxconns_return_never_fails_l. Qed.
+Print Assumptions maxconns_return_never_fails.
+
+(* MaxConnsHandler(n <= 0) returns [next] itself ("no limit").  The correspondence models it by
+   a limit whose capacity is the number of client threads; this theorem is why that is the
+   same thing: with a capacity >= the number of clients no request is ever answered 503. *)
+Theorem maxconns_unlimited : forall n scripts sched,
+  Forall (Forall is_req) scripts -> length scripts <= n ->
+  let s := lexec n scripts sched in
+  forall th, In th (lthreads s) -> ~ In 0%Z (lres th).
+Proof. exact maxconns_unlimited_l. Qed.
+Print Assumptions maxconns_unlimited.
+
+(* TaskRunner.Wait returns only when no slot is taken, no task goroutine is live (spawned,
+   running, or not yet cleaned up - by return or by panic) and no Schedule is pending *)
+Theorem wait_means_idle_taskrunner : forall n scripts sched t th s',
+  let s := rexec n scripts sched in
+  nth_error (rthreads s) t = Some th -> rpcof th = RWaitingWg -> rstep s t = Some s' ->
+  rwg s = 0 /\ rc s = 0 /\ rlive s = 0 /\ rrunning s = 0 /\ rscheduling s = 0.
+Proof. exact tr_wait_l. Qed.
+Print Assumptions wait_means_idle_taskrunner.
+
+Theorem wait_blocked_taskrunner : forall s t th o,
+  nth_error (rthreads s) t = Some th -> t < length (rthreads s) -> rcur th = Some o ->
+  rpcof th = RWaitingWg -> rwg s <> 0 -> rstep s t = None.
+Proof. exact tr_wait_blocked_l. Qed.
+Print Assumptions wait_blocked_taskrunner.
+
+(* ---- WorkerGroup (NewWorkerGroup(job, n).Start()) ---- *)
+
+(* cap_never_exceeded: for every n, every assignment of panics to job invocations and every
+   schedule: invocations inside job <= live worker goroutines <= goroutines started = loop
+   counter <= n *)
+Theorem cap_never_exceeded_workergroup : forall n panics sched,
+  let s := gexec n panics sched in
+  grunning s <= glive s /\ glive s <= length (gtasks s) /\ length (gtasks s) = gi s /\ gi s <= n.
+Proof. exact wg_cap_l. Qed.
+Print Assumptions cap_never_exceeded_workergroup.
+
+(* no_leak: Start has returned => exactly n workers were started and every one of them has
+   finished (job returned or panicked); the group's WaitGroup is back at zero *)
+Theorem no_leak_workergroup : forall n panics sched,
+  let s := gexec n panics sched in
+  gd s = GDone -> length (gtasks s) = n /\ gwg s = 0 /\ forall tk, In tk (gtasks s) -> wst tk = WDn.
+Proof. exact wg_done_l. Qed.
+Print Assumptions no_leak_workergroup.
+
+(* refused_or_blocked: after the n-th worker the loop ends (no (n+1)-th is started), and
+   Start stays blocked while a worker is still counted *)
+Theorem refused_or_blocked_workergroup : forall panics s,
+  (gd s = GLoop -> gi s = gn s -> gstep panics s 0 = Some (mkGS (gn s) (gi s) (gwg s) GWait (gtasks s))) /\
+  (gd s = GWait -> gwg s <> 0 -> gstep panics s 0 = None).
+Proof. intros panics s. split; [exact (wg_no_more_l panics s)|exact (wg_wait_blocked_l panics s)]. Qed.
+Print Assumptions refused_or_blocked_workergroup.
+
 (* ------------------------------------------------------------------ *)
 (* non-vacuity *)
 
@@ -263,4 +379,52 @@ Example ex_fx_panic :
   let s := wexec WFx 1 [true; false; false]
                  [0;0;0;0; 1;1;1;1; 0;0;0;0; 2;2;2;2; 0;0;0;0; 3;3;3;3; 0;0;0] in
   (map wst (wtasks s), wc s, wwg s, wd s) = ([WDn; WDn; WDn], 0, 0, DDone).
+Proof. vm_compute. reflexivity. Qed.
+
+(* balanced scripts are not rare: Borrow ... Return, requests with panicking handlers, nested *)
+Example ex_balanced :
+  map (bal 0) [[LBorrow; LReturn]; [LReq true; LBorrow; LBorrow; LReq false; LReturn; LReturn]; [LReturn]; [LTry; LReturn]]
+  = [Some 0; Some 0; None; None].
+Proof. vm_compute. reflexivity. Qed.
+
+(* ... and the conclusion of capacity_restored_limit is reached: n = 1, three such threads, the
+   panicking request holds the only permit while the Borrow of thread 0 waits *)
+Example ex_capacity_restored :
+  let s := lexec 1 [[LBorrow; LReturn]; [LReq true]; [LReq false; LBorrow; LReturn]]
+                 [1; 0; 2; 1; 0; 0; 2; 2; 2] in
+  (map lres (lthreads s), lc s, lrogue s, map lcur (lthreads s)) =
+  ([[1; 1]; [3]; [0; 1; 1]]%Z, 0, false, [None; None; None]).
+Proof. vm_compute. reflexivity. Qed.
+
+(* Return without Borrow, four times, then the capacity is still exactly 2 *)
+Example ex_over_return_repeated :
+  let s := lexec 2 [[LReturn; LReturn; LReturn; LReturn; LTry; LTry; LTry]] [0;0;0;0;0;0;0] in
+  (map lres (lthreads s), lc s) = ([[0; 0; 0; 0; 1; 1; 0]]%Z, 2).
+Proof. vm_compute. reflexivity. Qed.
+
+(* TaskRunner n = 1: Wait (thread 1) is blocked while task 0 (which panics) is live and stays
+   blocked while thread 0's second Schedule is pending/running; it returns after task 1 ended *)
+Example ex_wait :
+  let s := rexec 1 [[RSched true; RSched false]; [RWait]] [0;0; 1;1; 2; 0;0; 1; 2; 0; 1; 3;3; 1] in
+  (map rres (rthreads s), rc s, rwg s, map tst (rtasks s)) = ([[1;1]; [1]]%Z, 0, 0, [TDone; TDone]).
+Proof. vm_compute. reflexivity. Qed.
+
+Example ex_wait_blocked :
+  let s := rexec 1 [[RSched true; RSched false]; [RWait]] [0;0; 1;1; 2; 0;0; 1; 2; 0; 1] in
+  (map rpcof (rthreads s), rwg s) = ([RIdle; RWaitingWg], 1).
+Proof. vm_compute. reflexivity. Qed.
+
+(* WorkerGroup of 3, the second invocation panics: Start returns after all three have ended *)
+Example ex_workergroup :
+  let p := fun k => Nat.eqb k 1 in
+  let s1 := gexec 3 p [0;0;0;0;0; 1;2;3; 0; 1;2] in
+  let s2 := gexec 3 p [0;0;0;0;0; 1;2;3; 0; 1;2; 0; 3; 0] in
+  (gd s1, grunning s1, gwg s1, gd s2, map wst (gtasks s2), gwg s2) =
+  (GWait, 1, 1, GDone, [WDn; WDn; WDn], 0).
+Proof. vm_compute. reflexivity. Qed.
+
+(* MaxConns "no limit": 3 clients, capacity 3: all inside at once, nobody refused *)
+Example ex_maxconns_unlimited :
+  let s := lexec 3 [[LReq false]; [LReq true]; [LReq false]] [0; 1; 2] in
+  (linbody s, map lres (lthreads s)) = (3, [[]; []; []]).
 Proof. vm_compute. reflexivity. Qed.
